@@ -344,25 +344,82 @@ impl<T: ?Sized> Clone for Reference<T> {
 ///`rrtk::reference::to_dyn` interchangably.
 #[macro_export]
 macro_rules! to_dyn {
+    ($trait_:path, $was:expr) => {
+        $crate::__to_dyn_impl!($trait_, $was)
+    };
+}
+//Which variants exist depends on RRTK's own features, not on those of the crate calling the macro,
+//so the implementation is selected here rather than with `#[cfg]` inside the expansion (which
+//would be evaluated against the calling crate's features).
+#[cfg(feature = "std")]
+#[doc(hidden)]
+#[macro_export]
+macro_rules! __to_dyn_impl {
     ($trait_:path, $was:expr) => {{
-        #[cfg(feature = "alloc")]
-        extern crate alloc;
         #[allow(unreachable_patterns)]
         match $was.into_inner() {
             reference::ReferenceUnsafe::Ptr(ptr) => unsafe {
                 Reference::from_ptr(ptr as *mut dyn $trait_)
             },
-            #[cfg(feature = "alloc")]
             reference::ReferenceUnsafe::RcRefCell(rc_ref_cell) => Reference::from_rc_ref_cell(
-                rc_ref_cell as alloc::rc::Rc<core::cell::RefCell<dyn $trait_>>,
+                rc_ref_cell
+                    as $crate::reference::__macro_support::Rc<
+                        $crate::reference::__macro_support::RefCell<dyn $trait_>,
+                    >,
             ),
-            #[cfg(feature = "std")]
             reference::ReferenceUnsafe::PtrRwLock(ptr_rw_lock) => unsafe {
-                Reference::from_ptr_rw_lock(ptr_rw_lock as *const std::sync::RwLock<dyn $trait_>)
+                Reference::from_ptr_rw_lock(
+                    ptr_rw_lock as *const $crate::reference::__macro_support::RwLock<dyn $trait_>,
+                )
             },
             _ => unimplemented!(),
         }
     }};
+}
+#[cfg(all(feature = "alloc", not(feature = "std")))]
+#[doc(hidden)]
+#[macro_export]
+macro_rules! __to_dyn_impl {
+    ($trait_:path, $was:expr) => {{
+        #[allow(unreachable_patterns)]
+        match $was.into_inner() {
+            reference::ReferenceUnsafe::Ptr(ptr) => unsafe {
+                Reference::from_ptr(ptr as *mut dyn $trait_)
+            },
+            reference::ReferenceUnsafe::RcRefCell(rc_ref_cell) => Reference::from_rc_ref_cell(
+                rc_ref_cell
+                    as $crate::reference::__macro_support::Rc<
+                        $crate::reference::__macro_support::RefCell<dyn $trait_>,
+                    >,
+            ),
+            _ => unimplemented!(),
+        }
+    }};
+}
+#[cfg(not(feature = "alloc"))]
+#[doc(hidden)]
+#[macro_export]
+macro_rules! __to_dyn_impl {
+    ($trait_:path, $was:expr) => {{
+        #[allow(unreachable_patterns)]
+        match $was.into_inner() {
+            reference::ReferenceUnsafe::Ptr(ptr) => unsafe {
+                Reference::from_ptr(ptr as *mut dyn $trait_)
+            },
+            _ => unimplemented!(),
+        }
+    }};
+}
+///Types named by the expansion of [`to_dyn!`], reexported so that the macro does not depend on
+///what the calling crate has in scope.
+#[doc(hidden)]
+pub mod __macro_support {
+    #[cfg(feature = "alloc")]
+    pub use alloc::rc::Rc;
+    #[cfg(feature = "alloc")]
+    pub use core::cell::RefCell;
+    #[cfg(feature = "std")]
+    pub use std::sync::RwLock;
 }
 pub use to_dyn;
 ///Create a new `Rc<RefCell>` of something and return a [`Reference`] to it. Because of how [`Rc`]
